@@ -45,10 +45,11 @@ const (
 	kGenToWire
 	kGenEncode
 	kGenDecode
+	kDecodeInvalid
 	numKinds
 )
 
-var kindNames = []string{"Encode", "Decode+force", "StreamWrite", "StreamRead", "EncodeEnveloped", "DecodeEnveloped", "DecodeRequest", "ReadRequest", "gen.FromWire", "gen.ToWire", "gen.Encode", "gen.Decode"}
+var kindNames = []string{"Encode", "Decode+force", "StreamWrite", "StreamRead", "EncodeEnveloped", "DecodeEnveloped", "DecodeRequest", "ReadRequest", "gen.FromWire", "gen.ToWire", "gen.Encode", "gen.Decode", "Decode+force(invalid nested)"}
 
 type wireable interface {
 	ToWire() (wire.Value, error)
@@ -60,6 +61,39 @@ func makeOp(r *core.Rand, uid string) cop {
 	o := cop{kind: kind, name: kindNames[kind]}
 	gen := rc.GenOpts{MaxDepth: 4, MaxLen: 5, MaxBin: 40, NaN: true, Budget: 60}
 	switch kind {
+	case kDecodeInvalid:
+		// an input whose decoding fails INSIDE a nested container (a bool byte
+		// other than 0/1 in the last inner list): the error paths run next to
+		// everybody else's valid operations and must not disturb them
+		n := r.Range(2, 4)
+		b := []byte{0x0f, 0, 0, 0, byte(n)}
+		for k := 0; k < n; k++ {
+			b = append(b, 0x02, 0, 0, 0, 3, 1, 0, 1)
+		}
+		b[len(b)-1] = byte(r.Range(2, 255))
+		top := wire.TList
+		if r.Bool() { // as a struct field with a field after it
+			b = append(append([]byte{0x0f, 0, 1}, b...), 0x08, 0, 2, 0, 0, 0, 7, 0)
+			top = wire.TStruct
+		}
+		viaEvaluate := r.Bool()
+		o.want = "rejected"
+		o.run = func() (string, error) {
+			v, err := tbinary.Default.Decode(bytes.NewReader(b), top)
+			if err != nil {
+				return "rejected", nil
+			}
+			if viaEvaluate {
+				err = wire.EvaluateValue(v)
+			} else {
+				_, err = wb.FromWire(v)
+			}
+			if err != nil {
+				return "rejected", nil
+			}
+			return "accepted", nil
+		}
+		return o
 	case kEncode, kDecode, kStreamWrite, kStreamRead:
 		w := rc.Struct(rc.Field{ID: 1, V: rc.Binary([]byte(uid))}, rc.Field{ID: 2, V: rc.GenAny(r, gen)})
 		ref := rc.Encode(w)
@@ -532,6 +566,7 @@ func c18Fanout(c *core.Child, i uint64, r *core.Rand) {
 		barrier = &sync.WaitGroup{}
 		barrier.Add(n)
 	}
+	big := r.Chance(1, 3)
 	var msg verifhook.MultiServiceGenerator
 	want := map[string]string{}
 	for g := 0; g < n; g++ {
@@ -539,7 +574,11 @@ func c18Fanout(c *core.Child, i uint64, r *core.Rand) {
 		if barrier == nil {
 			fg.delay = time.Duration(r.Intn(300)) * time.Microsecond
 		}
-		for k := 0; k < r.Range(1, 5); k++ {
+		nfiles := r.Range(1, 5)
+		if big {
+			nfiles = r.Range(120, 260) // merging takes long enough for another generator to get in between
+		}
+		for k := 0; k < nfiles; k++ {
 			p := fmt.Sprintf("dir%d/f%d_%d.go", g%3, g, k)
 			fg.files[p] = []byte(fmt.Sprintf("%d/%d/%d", i, g, k))
 			want[p] = string(fg.files[p])
@@ -557,7 +596,10 @@ func c18Fanout(c *core.Child, i uint64, r *core.Rand) {
 	c.Count("fanout_rounds", 1)
 	c.Count("cases", 1)
 	c.Nontrivial(core.HashBytes([]byte{0x1a, byte(n), byte(conflicts), byte(procs)}, []byte(fmt.Sprint(i))))
-	det := map[string]any{"generators": n, "planted_conflicts": conflicts, "GOMAXPROCS": procs, "barrier": barrier != nil}
+	det := map[string]any{"generators": n, "planted_conflicts": conflicts, "GOMAXPROCS": procs, "barrier": barrier != nil, "files_per_generator_over_100": big}
+	if big {
+		c.Count("fanout_rounds_with_large_outputs", 1)
+	}
 	if conflicts > 0 {
 		c.Count("fanout_conflict_rounds", 1)
 		if err == nil {
